@@ -188,10 +188,30 @@ def work(args: Tuple[Case, str]) -> Dict[str, Any]:
                     if bad is None:
                         res["inconclusive"].append(f"{case.name}.{mr.cls}: solver model did not reproduce natively ({kind}); values {vals_case(lay, vals)[:6]}")
                         continue
-                    info = {"kind": kind, "native": o, "leaves": [[l.pname(), l.kind, l.n, l.off] for l in lay.leaves()]}
+                    info = {"kind": kind, "native": o, "leaves": [[l.pname(), l.kind, l.n, l.off] for l in lay.leaves()], "key": cause_key(lay, op, o, vals)}
                     res["violations"].append({"what": f"{case.name}.{mr.cls}: {bad}", "payload": _payload(case, mr, op, vals, {"native": o}), "confirmed": True, "info": info})
     res["exec_s"] = round(time.time() - t00, 3)
     return res
+
+
+def cause_key(lay: Any, op: str, o: Dict[str, Any], vals: Dict[Any, int]) -> str:
+    """A key computed from the concrete native failure, used to attribute it to a listed known
+    finding (and to nothing else)."""
+    import re
+
+    nozero = {l.enum.name for l in lay.leaves() if l.kind == "enum" and l.enum and all(v != 0 for _, v in l.enum.members)}
+    if "exc" in o:
+        m = re.match(r"(\d+) is not a valid (\w+)", o.get("msg", ""))
+        fr = o.get("frame") or ["", "", ""]
+        if o["exc"] == "ValueError" and m and m.group(2).split(".")[-1] in nozero and (fr[1].startswith("_get_") or "bp_set_byte" in fr[1]):
+            return "enum-without-zero-member"
+        return ""
+    if op == "roundtrip" and "leaves" in o:
+        by = {l.path: l for l in lay.leaves()}
+        wrong = [by[tuple(map(tuple, pth))] for pth, v in o["leaves"] if v != vals[tuple(map(tuple, pth))]]
+        if wrong and all(l.kind == "enum" and l.enum and l.enum.name in nozero for l in wrong):
+            return "enum-without-zero-member"
+    return ""
 
 
 def replay_payload(payload: Dict[str, Any]) -> Tuple[bool, str]:
